@@ -1,4 +1,5 @@
-(* C09: concrete runs of the machine (vm_compute): the two defects, and non-vacuity examples. *)
+(* C09: concrete runs of the machine (vm_compute): regression witnesses of the two repaired defects,
+   non-vacuity examples, and the literal gap statement checked on an exhaustive small scope. *)
 From PahoV Require Import Base.Prelude Link.Backoff.
 
 Definition cfg_plain (mn mx : Z) (retry_first : bool) : config := mkcfg mn mx retry_first true None.
@@ -6,31 +7,32 @@ Definition cfg_plain (mn mx : Z) (retry_first : bool) : config := mkcfg mn mx re
 Definition attempts (tr : list bev) : list (Z * bool) :=
   flat_map (fun e => match e with EvAttempt t i => [(t, i)] | _ => [] end) tr.
 
-(* F-C09a: retry_first_connection and a refused first attempt: attempts at 0, 3, 7, 15, 23 for
-   min = 1, max = 8 - the first retry comes after TWO waits (1 + 2), the later ones are one doubling ahead *)
-Example first_retry_double_wait_run :
+(* former F-C09a (fixed in /repo 6a826ba + 8319104): retry_first_connection and a refused first attempt;
+   min = 1, max = 8: attempts at 0, 1, 3, 7, 15 (before the fix: 0, 3, 7, 15, 23) *)
+Example first_retry_run :
   attempts (fst (run_script (cfg_plain 1 8 true) 0 [Refused; Refused; Refused; Refused]))
-  = [(0, false); (3, false); (7, false); (15, false); (23, false)].
-Proof. vm_compute. reflexivity. Qed.
+  = [(0, false); (1, false); (3, false); (7, false); (15, false)] /\
+  gaps_ok 1 8 (fst (run_script (cfg_plain 1 8 true) 0 [Refused; Refused; Refused; Refused])) = true.
+Proof. vm_compute. split; reflexivity. Qed.
 
-Lemma delays_refuted :
-  exists cfg script t0, 1 <= c_min cfg <= c_max cfg /\ c_act cfg = None /\ c_rof cfg = true /\
-    gaps_ok (c_min cfg) (c_max cfg) (fst (run_script cfg t0 script)) = false.
-Proof.
-  exists (cfg_plain 1 8 true), [Refused; Refused; Refused; Refused], 0. vm_compute. repeat split; congruence.
-Qed.
+(* former F-C09b (fixed in d2253bf): CONNACK rc 1, the immediate downgrade reconnect() is refused: counted as
+   a failure, the normal back-off continues (0, 0 immediate, 1, 3, 7), loop_forever does not raise *)
+Example downgrade_refused_run :
+  let r := run_script (cfg_plain 1 8 false) 0 [Downgrade; Refused; Refused; ClosedBeforeConnack] in
+  attempts (fst r) = [(0, false); (0, true); (1, false); (3, false); (7, false)] /\
+  gaps_ok 1 8 (fst r) = true /\ fst (snd r) = PcDone REnd.
+Proof. vm_compute. repeat split; reflexivity. Qed.
 
-(* F-C09b: CONNACK rc 1 -> immediate downgrade reconnect(); if that TCP connect is refused the OSError
-   leaves loop_forever: the machine ends in RRaise although nobody disconnected and reconnect_on_failure is on *)
-Lemma retries_refuted :
-  exists cfg script t0, c_act cfg = None /\ c_rof cfg = true /\ first_is_refused script = false /\
-    fst (snd (run_script cfg t0 script)) = PcDone RRaise.
-Proof.
-  exists (cfg_plain 1 8 false), [Downgrade; Refused], 0. vm_compute. repeat split; congruence.
-Qed.
+(* former F-C09c (regression of the first repair, fixed in 8319104): disconnect() inside on_connect_fail of the
+   refused first attempt is final *)
+Example disconnect_in_first_fail_run :
+  let cfg := mkcfg 1 8 true true (Some (mkact 0 PConnectFail ADisconnect)) in
+  let r := run_script cfg 0 [Refused; Refused; Refused] in
+  attempts (fst r) = [(0, false)] /\ fst (snd r) = PcDone (RRet 7) /\ final_ok true (fst r) = true.
+Proof. vm_compute. repeat split; reflexivity. Qed.
 
 (* non-vacuity: a history with every kind of outcome, reset of the back-off after the accepted CONNACK,
-   the immediate downgrade attempt, and the cap *)
+   the immediate downgrade attempt (time 125 twice), and the cap *)
 Definition mixed_script : list outcome :=
   [ClosedBeforeConnack; ConnackRefused RfNotAuthorised; Refused; Refused; Accepted 7; Downgrade; ClosedBeforeConnack; Refused].
 Example mixed_run :
@@ -42,8 +44,7 @@ Example mixed_run :
   fst (snd (run_script (cfg_plain 2 5 false) 100 mixed_script)) = PcDone REnd.
 Proof. vm_compute. repeat split; reflexivity. Qed.
 
-(* disconnect() during the second one-second sleep of the wait after attempt 1: loop_forever returns,
-   two attempts only *)
+(* disconnect() during the second one-second sleep of the wait after attempt 1 *)
 Example disconnect_in_wait_run :
   let cfg := mkcfg 1 8 false true (Some (mkact 1 (PWait 2) ADisconnect)) in
   let r := run_script cfg 0 [ClosedBeforeConnack; Refused; Refused; Refused] in
@@ -51,9 +52,32 @@ Example disconnect_in_wait_run :
   final_ok true (fst r) = true /\ has_act (fst r) = true.
 Proof. vm_compute. repeat split; reflexivity. Qed.
 
-(* reconnect_on_failure off: one loss ends the loop *)
+(* reconnect_on_failure off: one loss ends the loop; the first-connection retries are not affected *)
 Example rof_off_run :
-  let cfg := mkcfg 1 8 false false None in
-  let r := run_script cfg 0 [Accepted 3; Refused] in
-  attempts (fst r) = [(0, false)] /\ fst (snd r) = PcDone (RRet 7) /\ final_ok false (fst r) = true.
+  let cfg := mkcfg 1 8 true false None in
+  let r := run_script cfg 0 [Refused; Refused; Accepted 3; Refused] in
+  attempts (fst r) = [(0, false); (1, false); (3, false)] /\ fst (snd r) = PcDone (RRet 7) /\
+  final_ok false (fst r) = true.
 Proof. vm_compute. repeat split; reflexivity. Qed.
+
+(* ---- the literal gap statement on an exhaustive small scope: every script of length <= 5 over
+   {refused, closed, CONNACK refused, accepted+lost at once, accepted+lost after 3, CONNACK rc 1},
+   (min,max) in {(1,1),(1,4),(2,5),(3,100)}, retry_first on/off: 4 * 2 * 9331 runs *)
+Definition alphabet : list outcome :=
+  [Refused; ClosedBeforeConnack; ConnackRefused RfNotAuthorised; Accepted 0; Accepted 3; Downgrade].
+Fixpoint scripts_upto (n : nat) : list (list outcome) :=
+  match n with
+  | O => [[]]
+  | S n' => [] :: flat_map (fun s => map (fun o => o :: s) alphabet) (scripts_upto n')
+  end.
+Definition pairs : list (Z * Z) := [(1, 1); (1, 4); (2, 5); (3, 100)].
+Definition gaps_scope (n : nat) : bool :=
+  forallb (fun mm =>
+    forallb (fun rf =>
+      forallb (fun sc =>
+        let tr := fst (run_script (cfg_plain (fst mm) (snd mm) rf) 0 sc) in
+        gaps_ok (fst mm) (snd mm) tr && waits_ok (fst mm) (snd mm) tr)
+      (scripts_upto n)) [true; false]) pairs.
+
+Lemma gaps_small_scope : gaps_scope 5 = true.
+Proof. vm_compute. reflexivity. Qed.
